@@ -192,3 +192,10 @@ func VerifSegmentName(id uint16, seq uint64) string {
 func VerifParseSegmentName(name string) (uint16, uint64, error) {
 	return parseSegmentName(name)
 }
+
+// VerifMaxSequenceID returns the largest segment sequence id handed out so far.
+func VerifMaxSequenceID(db *DB) uint64 {
+	db.mu.RLock()
+	defer db.mu.RUnlock()
+	return db.datalog.maxSequenceID
+}
